@@ -464,7 +464,7 @@ def _hooks_need_no_unset_attribute(chk: Check, R1: str, R2: str, g, lm) -> None:
             continue
         fi = F.func(q)
         selft = ('param', om.self_param(F, q))
-        lex = ('attr', selft, 'lex')
+        lex = common.lexer_term(F, selft)
         common_set: Optional[Set[str]] = None
         for p in SymExec(F, fi).run():
             runs = [e for e in p.events if e.kind == 'call' and _is_ply_call(e, selft) and freeze(e.func)[2] in ('token', 'parse')]
